@@ -335,7 +335,7 @@ func runC18Stream(t fataler, c c18Case) (string, c18Result) {
 func TestC18(t *testing.T) {
 	rec := evid.For("C18")
 	rec.Rule = "stream: rapid draws inbound message sizes (0..70000, boundary-biased, fragmented, alternately compressed by every foreign deflater variant incl. BFINAL=1 endings, optionally each preceded by a Ping, on servers optionally the first message or its first 1/2/7 bytes arriving in the segment of the handshake request, optionally the header of every message's first frame arriving in two pieces 50 ms apart with one of this side's Writes in the gap, the transport delivering at most 1/2/7 bytes per read or everything at once) against cycled Read buffer sizes (1..100000), Write sizes, message type, role/compression, and an ending {peer Close 1000, 1001, another code or empty - with the peer waiting for the echo or hanging up right behind its Close frame -, transport EOF, transport reset, a message of the wrong type at a drawn position}; deadlines: rapid-drawn scripts of SetReadDeadline/SetWriteDeadline/SetDeadline (past, future, zero) before, between and during calls on the fake clock. Non-trivial: a read buffer smaller than a message (message spans several reads), or an idle expiry followed by a reset and further traffic. distinct = hash of the case."
-	rapid.Check(t, func(rt *rapid.T) {
+	checkProp(t, func(rt *rapid.T) {
 		c := genC18(rt)
 		var msg string
 		var res c18Result
@@ -675,7 +675,7 @@ func runC18DL(t fataler, c c18DL) (string, c18DLResult) {
 
 func TestC18Deadlines(t *testing.T) {
 	rec := evid.For("C18")
-	rapid.Check(t, func(rt *rapid.T) {
+	checkProp(t, func(rt *rapid.T) {
 		c := genC18DL(rt)
 		var msg string
 		var res c18DLResult
